@@ -136,6 +136,7 @@ def run(ck, fb):
     r17f(ck, fb)
     r17g(ck, fb)
     r17j(ck, fb)
+    r17l(ck, fb)
     ck.borrow('rules.c01', {'R01w': 'R17k'}, 'a session that expired stays expired across a restart or a snapshot install: the console refuses its token')
 
 
@@ -512,3 +513,37 @@ def r17j(ck, fb, R='R17j'):
         eqs = [s for s in x.sites if (s.callee or '').endswith('PartialEq::eq')]
         ok = len(eqs) == 1 and cfg.origin_fields(x, eqs[0].args[0])[-1:] == [fld] and 'const()' in cfg.fmt_desc(cfg.describe_operand(x, eqs[0].args[1]))
         ck.require(ok, R, '%s:empty-means-all' % x.name.split('::')[-1], x.where(), '%s is not "entry.%s is the empty string"' % (x.name.split('::')[-1], fld))
+
+
+def r17l(ck, fb, R='R17l'):
+    ck.rule(R, '"a logged-in user can only invoke the routes granted to one of THEIR roles": the roles a request is judged by are the roles the login '
+               'that created the session established. UserSession values are built only by the login handlers of console::login_api (password, OAuth2 '
+               'callback, LDAP), and nothing outside them assigns UserSession.roles afterwards. A per-request refresh that copies the roles of the user-table '
+               'record named like the session gives an LDAP / OAuth2 session (whose roles come from the directory at login) the roles of whatever local '
+               'record has that name - e.g. a manager record left from an earlier login, or the built-in admin. (A refresh that narrows roles for the users '
+               'of the table itself would need the session to say where it came from; this rule reports any such write for triage.)')
+    builders, writers = [], []
+    for b in fb.bodies.values():
+        if not b.name.startswith('rnacos::') or '::tests::' in b.name or '::seeded_demo' in b.name:
+            continue
+        if b.aggregates(r'common::model::UserSession$'):
+            builders.append(b)
+        for (o, f, bb, st) in b.field_writes():
+            if f == 'roles' and o.endswith('common::model::UserSession'):
+                writers.append((b, bb))
+    ck.floor(R, 'functions that build a UserSession', len(builders), 3)
+    for b in builders:
+        ck.analysed(b)
+        root = fb.root_of(b.name) if hasattr(fb, 'root_of') else b.name
+        ck.require(b.name.startswith('rnacos::console::login_api::'), R, 'UserSession-built-by:%s' % b.name.split('::{')[0], b.where(),
+                   'a UserSession is built outside the login handlers (%s): its roles are not the result of a login' % b.name, 'login handler')
+    seen = set()
+    for (b, bb) in writers:
+        k = b.name.split('::{')[0]
+        if k in seen:
+            continue
+        seen.add(k)
+        ck.analysed(b)
+        ck.require(b.name.startswith('rnacos::console::login_api::'), R, 'UserSession.roles-assigned-by:%s' % k, b.where(bb),
+                   '%s assigns UserSession.roles after the login: the request is judged by roles the login did not grant (a session of a directory user whose '
+                   'name equals a local record gets that record\'s roles)' % k, 'login handler')
